@@ -1,1 +1,20 @@
-fn main() {}
+mod probe;
+mod sched;
+mod tree;
+
+fn main() {
+    // panics inside the code under test are caught and recorded as outcomes; keep stderr quiet
+    std::panic::set_hook(Box::new(|_| {}));
+    let a: Vec<String> = std::env::args().collect();
+    let arg = |i: usize| a.get(i).cloned().unwrap_or_default();
+    let num = |i: usize| arg(i).parse::<u64>().expect("number");
+    match arg(1).as_str() {
+        "probe" => probe::run(),
+        "tree-replay" => tree::replay(&arg(2), &arg(3)),
+        "tree-rand" => tree::random(num(2), num(3), num(4), &arg(5)),
+        _ => {
+            eprintln!("usage: obj tree-replay CASES OUT | tree-rand N LEN SEED OUT | ...");
+            std::process::exit(2);
+        }
+    }
+}
